@@ -1,4 +1,5 @@
 import LocustModel.Lemmas.StoreDurableRun
+import LocustModel.Lemmas.StoreInterleave
 /-
   A concrete, non-trivial history of the storage machine used by the non-vacuity `example`s of Thm/C08, C13, C18:
   two tables, columns that come and go, a plain flush, a flush that COMPACTS the two partitions of table 1 into one,
@@ -54,5 +55,54 @@ theorem opsB_wf : HistWF opsB := by
   · exact opsA_wf op h
   · exact revOrder_perm
   · exact fiPlain_wf
+
+-- ------------------------------------------------------------------------------------------------ interleaved histories
+
+/-- `r1`; a force_flush request; the flush thread takes it and FREEZES; `r2` is ingested while the flush is between
+    "buffers frozen" and "catalogue persisted" (before batching); `r3` after batching, still before persist_metastore;
+    the flush completes; clean restart with reversed replay. -/
+def iopsFlush : List (IOp Nat Nat) :=
+  [.ingest r1 10, .forceReq, .flushBegin 1, .ingest r2 20, .flushBatch fiPlain, .ingest r3 5, .flushMeta, .flushGcParts, .flushGcWal]
+
+def iopsA : List (IOp Nat Nat) := iopsFlush ++ [.restart revOrder]
+
+/-- As `iopsFlush`, and a SECOND force_flush is requested while the first flush is past its freeze. -/
+def iopsLate : List (IOp Nat Nat) :=
+  [.ingest r1 10, .forceReq, .flushBegin 1, .ingest r2 20, .forceReq, .flushBatch fiPlain, .flushMeta, .flushGcParts, .flushGcWal]
+
+theorem iopsFlush_wf : IHistWF iopsFlush := by
+  intro op h
+  simp only [iopsFlush, List.mem_cons, List.mem_nil_iff, or_false] at h
+  rcases h with rfl | rfl | rfl | rfl | rfl | rfl | rfl | rfl | rfl
+  · exact r1_wf
+  · trivial
+  · trivial
+  · exact r2_wf
+  · exact fiPlain_wf
+  · exact r3_wf
+  · trivial
+  · trivial
+  · trivial
+
+theorem iopsA_wf : IHistWF iopsA := by
+  intro op h
+  simp only [iopsA, List.mem_append, List.mem_cons, List.mem_nil_iff, or_false] at h
+  rcases h with h | rfl
+  · exact iopsFlush_wf op h
+  · exact revOrder_perm
+
+theorem iopsLate_wf : IHistWF iopsLate := by
+  intro op h
+  simp only [iopsLate, List.mem_cons, List.mem_nil_iff, or_false] at h
+  rcases h with rfl | rfl | rfl | rfl | rfl | rfl | rfl | rfl | rfl
+  · exact r1_wf
+  · trivial
+  · trivial
+  · exact r2_wf
+  · trivial
+  · exact fiPlain_wf
+  · trivial
+  · trivial
+  · trivial
 
 end LM.Store.Ex
